@@ -9,10 +9,13 @@ pub mod c05;
 pub mod c06;
 pub mod c07;
 pub mod c15;
+pub mod c17;
 pub mod c20;
 pub mod util;
 pub mod c09;
 pub mod c10;
+pub mod c11;
+pub mod digest;
 pub mod c19;
 
 #[derive(Clone, Debug)]
@@ -168,6 +171,28 @@ pub fn evaluate(prop: &str, sc: &Scenario) -> Eval {
                 _ => c20::check(sc, &res),
             };
             ev.nontrivial = res.dumps.first().map(|d| d.result.is_ok()).unwrap_or(false);
+            ev.signature = format!("{}{}", base_signature(sc), isig);
+        }
+        "C11" => {
+            let res = run(sc, &RunOpts::default());
+            let isig = account(&mut ev, sc, &res);
+            let twin_sc = c11::twin_of(sc);
+            let twin = run(&twin_sc, &RunOpts::default());
+            ev.runs += 1;
+            ev.violations = c11::check(sc, &res, Some(&twin));
+            ev.nontrivial = sc.tags.iter().any(|t| t.starts_with("expect:"));
+            ev.signature = format!("{}{}", base_signature(sc), isig);
+        }
+        "C17" => {
+            let res = run(sc, &RunOpts::default());
+            let isig = account(&mut ev, sc, &res);
+            ev.violations = c17::check(sc, &res);
+            ev.count("remote_reads", res.mem_reads.len() as u64);
+            ev.count("remote_reads_ok", res.mem_reads.iter().filter(|m| m.result.is_ok()).count() as u64);
+            for (i, n) in res.kernel.gt.strategies_used.iter().enumerate() {
+                ev.count(&format!("probe strategy_{}_served", ["vm_readv", "proc_mem", "peekdata"][i]), *n);
+            }
+            ev.nontrivial = !res.mem_reads.is_empty();
             ev.signature = format!("{}{}", base_signature(sc), isig);
         }
         "C09" => {
